@@ -152,7 +152,10 @@ def c03_programs(draw, max_actors=5, max_ops=8):
             else:
                 oi.insert(at, ["put", j, size, {}])
             oj.insert(draw(st.integers(0, len(oj))), ["get", j, go])
-    return {"cfg": list(s4u.SHARING_FREE_CFG), "platform": platform(nh),
+    cfg = list(s4u.SHARING_FREE_CFG)
+    if draw(st.integers(0, 5)) == 0:
+        cfg += ["cpu/optim:Full", "network/optim:Full"]       # the other update algorithm of the models (same dates expected)
+    return {"cfg": cfg, "platform": platform(nh),
             "objects": {"mutex": [{"recursive": False}], "sem": [0], "cond": [0], "mailbox": nact + 1, "mqueue": 1},
             "actors": actors}
 
@@ -166,14 +169,22 @@ def _clamp(d):
 class Timeline:
     """what the log says about the clock"""
 
-    def __init__(self, log):
+    def __init__(self, log, full=False):
         self.lines = log.lines
+        self.full = full             # cpu/optim:Full: remaining durations are decremented at every step, each step may round
         self.adv = [(l["n"], T(l["t"]), T(l["dt"])) for l in log.lines if l.get("k") == "adv"]
         self.nongrid_from = None            # line number of the first advance to a non-grid date
         for n, t, _ in self.adv:
             if not is_grid(t):
                 self.nongrid_from = n
                 break
+
+    def slack(self, n, x):
+        """rounding slack of a date x observed at line n (dates off the grid only): 1 ulp with lazy updates, 1 ulp per time advance
+        with full updates"""
+        if not self.full:
+            return ulp(x)
+        return ulp(x) * (1 + sum(1 for m, _, _ in self.adv if m < n))
 
     def exact_at(self, n):
         """True when every date the clock took before line n is on the grid: all the kernel's date arithmetic was exact"""
@@ -310,7 +321,7 @@ def match_date(oc, labels, tl, what, n_ret, got, exp, others, action, sig):
          date of another actor's event."""
     if got == exp:
         return True
-    if not tl.exact_at(n_ret) and abs(got - exp) <= ulp(exp):
+    if not tl.exact_at(n_ret) and abs(got - exp) <= tl.slack(n_ret, exp):
         labels.add("one-ulp-rounding")
         return True
     if action and got < exp and exp - got < PREC * (1 + 1e-6) and any(abs(got - d) <= ulp(got) for d in others):
@@ -321,7 +332,10 @@ def match_date(oc, labels, tl, what, n_ret, got, exp, others, action, sig):
 
 
 def check_c03(case, log, oc, labels):
-    tl = Timeline(log)
+    full = any(c.startswith("cpu/optim:Full") for c in case.get("cfg", []))
+    if full:
+        labels.add("cpu-full-update")
+    tl = Timeline(log, full)
     nadv = check_clock(log, oc, labels)
     ops = log.ops()
     by_key = {(r["a"], r["i"]): r for r in ops}
@@ -635,7 +649,10 @@ def c12_programs(draw, mess_weight=1):
         for who, h in [(act["owner"], act["h"][0])] + ([(act["peer"], act["h"][1])] if "peer" in act else []):
             if draw(st.integers(0, 7)) > 0:
                 who["ops"].append(["twait", h, {}])
-    return {"cfg": list(s4u.SHARING_FREE_CFG), "platform": platform(nh), "objects": {"mailbox": nacts, "mqueue": nacts},
+    cfg = list(s4u.SHARING_FREE_CFG)
+    if draw(st.integers(0, 5)) == 0:
+        cfg += ["cpu/optim:Full", "network/optim:Full"]       # the other update algorithm of the models: same dates (all dyadic)
+    return {"cfg": cfg, "platform": platform(nh), "objects": {"mailbox": nacts, "mqueue": nacts},
             "actors": [{"name": n, "host": prog[n]["host"], "ops": prog[n]["ops"]} for n in order]}
 
 
